@@ -95,27 +95,37 @@ def syncFromDisk {β} (s : St β) : St β :=
 def opNew {β} (s : St β) (bs nb : Option Nat) (shuffle : Nat) : St β :=
   syncFromDisk { s with obj := { bs := bs, nb := nb, rem := none, shuffle := shuffle } }
 
-/-- attribute updates made at the top of `sow_combos` / `sow_cases` -/
-def sowAttrs (o : Obj) (shuffleArg : Option Nat) (bs nb : Option Nat) : Obj :=
+/-- attribute updates made at the top of `sow_combos` (`combos = true`; `shuffleArg = some v`: the call's `shuffle`
+argument, whose default `False` is `some 0`; `none`: `shuffle=None` was given, the crop keeps its own) and of
+`sow_cases` (`combos = false`; it has no `shuffle` argument).  `Refine.sowAttrs_refines` ties this to the translated
+heads of the two methods. -/
+def sowAttrs (o : Obj) (combos : Bool) (shuffleArg : Option Nat) (bs nb : Option Nat) : Obj :=
   let o := if bs.isSome then { o with bs := bs } else o
   let o := if nb.isSome then { o with nb := nb } else o
-  match shuffleArg with
-  | some sh => { o with shuffle := sh }     -- sow_combos: its `shuffle` argument (default False) replaces the crop's
-  | none => o                               -- sow_cases: the crop's own setting is used
+  match combos, shuffleArg with
+  | true, some sh => { o with shuffle := sh }
+  | _, _ => o
 
-/-- `sow_combos` (`shuffleArg = some _`, combos sorted by name) and `sow_cases` (`shuffleArg = none`) -/
-def opSow {β} (P : Perms) (s : St β) (sw : Sweep) (shuffleArg : Option Nat) (bs nb : Option Nat) :
+/-- the shuffle setting handed to the runner that drives the Sower (extracted from the two methods) -/
+def runnerShuffle (combos : Bool) (shuffleArg : Option Nat) (o : Obj) : Nat :=
+  let self? : Option Int := some (o.shuffle : Int)
+  let r := if combos then Gen.sowCombosRunnerShuffle (shuffleArg.map Int.ofNat) self? else Gen.sowCasesRunnerShuffle self?
+  (r.getD 0).toNat
+
+/-- `sow_combos` (`combos = true`, combos sorted by name) and `sow_cases` (`combos = false`) -/
+def opSow {β} (P : Perms) (s : St β) (sw : Sweep) (combos : Bool) (shuffleArg : Option Nat) (bs nb : Option Nat) :
     Except Err (St β) :=
-  let o := sowAttrs s.obj shuffleArg bs nb
-  let sw := if shuffleArg.isSome then sortByName sw else sw
+  let o := sowAttrs s.obj combos shuffleArg bs nb
+  let sw := if combos then sortByName sw else sw
   let n := sw.locs.length
   match Batch.chooseBatch n o.bs o.nb o.rem with
   | .error _ => .error .value
   | .ok c =>
+    let runSh := runnerShuffle combos shuffleArg o
     let o := { o with bs := some c.batchsize, nb := some c.numBatches, rem := some c.remainder }
     let d := s.dir.getD {}
     let info : Info := { bs := c.batchsize, nb := c.numBatches, rem := c.remainder, shuffle := o.shuffle, sweep := sw }
-    let newB := enumFrom1 (Batch.sow c (sowStream P sw o.shuffle))
+    let newB := enumFrom1 (Batch.sow c (sowStream P sw runSh))
     let batches := newB.foldl (fun acc kv => insert acc kv.1 kv.2) d.batches
     .ok { obj := o, dir := some { d with info := some info, batches := batches } }
 
